@@ -14,6 +14,15 @@ def _nameidx(name):
     return int(s.split(".")[0][1:])
 
 
+def _guard(cur, f, *a, **kw):
+    """run a call into the code under test; an escaping exception is an observed outcome (TLC rejects it), not a harness crash"""
+    try:
+        return f(*a, **kw)
+    except Exception as e:
+        cur["raised"] = type(e).__name__
+        return None
+
+
 def run_history(cfg, ops, rseed=0):
     """cfg = {"ns": servers, "T": [timeouts], "idmax": id space}; ops = list of op lists (see step())."""
     import errno
@@ -31,10 +40,13 @@ def run_history(cfg, ops, rseed=0):
     servers = [("10.1.0.%d" % (i + 1), 53) for i in range(ns)]
     ev = []
     cur = {}          # observations of the event being recorded
+
+    def guard(f, *a, **kw):
+        return _guard(cur, f, *a, **kw)
     st = dict(nrep=0)
 
     def blank(e):
-        return dict(e, sent=[], closed=[], connects=[], tcpsent=[], fired=[], unexpected=0, logerr=0)
+        return dict(e, sent=[], closed=[], connects=[], tcpsent=[], fired=[], unexpected=0, logerr=0, raised="")
 
     class Port:
         def __init__(self, n, num, proto):
@@ -72,7 +84,7 @@ def run_history(cfg, ops, rseed=0):
         def callLater(self, delay, f, *a, **kw):
             def fire():
                 begin({"e": "fire"})
-                f(*a, **kw)
+                guard(f, *a, **kw)
                 end()
             return MemoryReactorClock.callLater(self, delay, fire)
 
@@ -145,9 +157,10 @@ def run_history(cfg, ops, rseed=0):
         if k == "lookup":
             begin({"e": "lookup", "n": op[1]})
             h = len(handles) + 1
-            d = resolver.lookupAddress(_qname(op[1]), timeout=tuple(T))
+            d = guard(resolver.lookupAddress, _qname(op[1]), timeout=tuple(T))
             handles.append(d)
-            d.addBoth(on_result, h)
+            if d is not None:
+                d.addBoth(on_result, h)
             end()
         elif k in ("reply", "garbage"):
             # op = [reply, sel, prefer_open, idmode, kind, rc, spoof]
@@ -165,7 +178,7 @@ def run_history(cfg, ops, rseed=0):
                 data = message(i, port_name[p.n], op[4], op[5])
                 begin({"e": "reply", "a": p.n, "i": i, "kind": op[4], "rc": op[5], "v": st["nrep"], "spoof": bool(op[6])})
             if not p.closed:     # a datagram to a closed port is dropped by the OS
-                p.proto.datagramReceived(data, ("6.6.6.6", 53) if op[6] else servers[port_srv[p.n] - 1])
+                guard(p.proto.datagramReceived, data, ("6.6.6.6", 53) if op[6] else servers[port_srv[p.n] - 1])
             end()
         elif k == "advance":
             begin({"e": "advance", "d": op[1]})
@@ -185,13 +198,13 @@ def run_history(cfg, ops, rseed=0):
                 c["proto"].callLater = reactor.callLater      # documented test hook of DNSMixin
                 c["tr"] = StringTransport()
                 c["state"] = "up"
-                c["proto"].makeConnection(c["tr"])
+                guard(c["proto"].makeConnection, c["tr"])
             elif k == "connfail":
                 c["state"] = "failed"
-                factory.clientConnectionFailed(reactor.connectors[ci], Failure(error.ConnectionRefusedError()))
+                guard(factory.clientConnectionFailed, reactor.connectors[ci], Failure(error.ConnectionRefusedError()))
             else:
                 c["state"] = "lost"
-                c["proto"].connectionLost(Failure(error.ConnectionDone()))
+                guard(c["proto"].connectionLost, Failure(error.ConnectionDone()))
             end()
         elif k == "tcpreply":
             # op = [tcpreply, csel, qsel, idmode, kind, rc]
@@ -214,7 +227,7 @@ def run_history(cfg, ops, rseed=0):
                 if qq[0] == i and not qq[2]:
                     qq[2] = True
                     break
-            c["proto"].dataReceived(struct.pack("!H", len(data)) + data)
+            guard(c["proto"].dataReceived, struct.pack("!H", len(data)) + data)
             end()
         else:
             raise ValueError(op)
@@ -231,6 +244,152 @@ def run_history(cfg, ops, rseed=0):
             for e in ev[n0:]:
                 for a, srv, i, name in e["sent"]:
                     port_id[a], port_name[a], port_srv[a] = i, name, srv
+        begin({"e": "end"})
+        end()
+    finally:
+        tlog.removeObserver(observer)
+        dns.randomSource = saved
+    return {"cfg": cfg, "ops": [list(o) for o in ops], "rseed": rseed, "ev": ev}
+
+
+def run_proto_history(cfg, ops, rseed=0):
+    """Second layer: one shared dns.DNSDatagramProtocol driven directly.  cfg = {"idmax": n}."""
+    import random
+    from twisted.internet import task
+    from twisted.names import dns
+    from twisted.python import log as tlog
+    from twisted.python.failure import Failure
+
+    idmax = cfg["idmax"]
+    rnd = random.Random(rseed)
+    ev, cur = [], {}
+    server = ("10.1.0.1", 53)
+
+    def guard(f, *a, **kw):
+        return _guard(cur, f, *a, **kw)
+
+    def begin(e):
+        cur.clear()
+        cur.update(dict(e, sent=[], listens=0, fired=[], unexpected=0, logerr=0, raised=""))
+
+    def end():
+        cur["timers"] = len(clock.getDelayedCalls())
+        ev.append(dict(cur))
+
+    class Port:
+        closed = False
+
+        def __init__(self, proto):
+            self.proto = proto
+
+        def write(self, data, addr=None):
+            m = dns.Message()
+            m.fromStr(data)
+            cur["sent"].append(m.id)
+
+        def stopListening(self):
+            if not self.closed:
+                self.closed = True
+                self.proto.doStop()
+
+    class R(task.Clock):
+        def listenUDP(self, port, protocol, interface="", maxPacketSize=8192):
+            cur["listens"] += 1
+            p = Port(protocol)
+            protocol.makeConnection(p)
+            return p
+
+        def callLater(self, delay, f, *a, **kw):
+            def fire():
+                begin({"e": "fire"})
+                guard(f, *a, **kw)
+                end()
+            return task.Clock.callLater(self, delay, fire)
+
+    class Controller:
+        def messageReceived(self, message, protocol, address=None):
+            cur["unexpected"] += 1
+
+    def observer(d):
+        if d.get("isError"):
+            cur["logerr"] = cur.get("logerr", 0) + 1
+
+    clock = R()
+    issued = []        # per query: dict(id, done, epoch)
+    st = dict(epoch=0, nrep=0)
+
+    def on_result(r, q):
+        issued[q - 1]["done"] = True
+        if isinstance(r, Failure):
+            cur["fired"].append([q, r.type.__name__, getattr(r.value, "id", 0)])
+        else:
+            try:
+                ans = r.answers[0].payload.dottedQuad().split(".")
+                cur["fired"].append([q, "ok", int(ans[2]) * 256 + int(ans[3])])
+            except Exception as e:
+                cur["fired"].append([q, "weird:" + type(e).__name__, 0])
+
+    def step(op):
+        k = op[0]
+        if k == "query":
+            want, t = op[1], op[2]
+            if want:
+                busy = {x["id"] for x in issued if not x["done"] and x["epoch"] == st["epoch"]}
+                free = [i for i in range(1, idmax + 1) if i not in busy]
+                if not free:
+                    return
+                want = free[want % len(free)]
+            elif len([x for x in issued if not x["done"] and x["epoch"] == st["epoch"]]) >= idmax:
+                return                      # pickID would spin for ever
+            begin({"e": "query", "k": want, "t": t})
+            d = guard(proto.query, server, [dns.Query(b"n1.example.com", dns.A, dns.IN)], timeout=t, id=want or None)
+            issued.append(dict(id=cur["sent"][0] if cur["sent"] else 0, done=False, epoch=st["epoch"]))
+            if d is not None:
+                d.addBoth(on_result, len(issued))
+            end()
+        elif k in ("deliver", "garbage"):
+            if proto.transport is None:
+                return                      # closed port: the OS drops the datagram
+            if k == "garbage":
+                begin({"e": "garbage"})
+                guard(proto.datagramReceived, b"\x00\x01", server)
+            else:
+                st["nrep"] += 1
+                r = st["nrep"]
+                m = dns.Message(id=op[1], answer=1)
+                m.answers = [dns.RRHeader(b"n1.example.com", dns.A, dns.IN, 60, dns.Record_A("10.0.%d.%d" % (r // 256, r % 256)))]
+                begin({"e": "deliver", "i": op[1], "v": r})
+                guard(proto.datagramReceived, m.toStr(), server)
+            end()
+        elif k == "advance":
+            begin({"e": "advance", "d": op[1]})
+            end()
+            clock.advance(op[1])
+        elif k == "rmresend":
+            if proto.transport is None:
+                return
+            begin({"e": "rmresend", "i": op[1]})
+            guard(proto.removeResend, op[1])
+            end()
+        elif k == "stop":
+            if proto.transport is None:
+                return
+            begin({"e": "stop"})
+            guard(proto.transport.stopListening)
+            st["epoch"] += 1
+            end()
+        else:
+            raise ValueError(op)
+
+    saved = dns.randomSource
+    dns.randomSource = lambda: rnd.randint(1, idmax)
+    tlog.addObserver(observer)
+    try:
+        proto = dns.DNSDatagramProtocol(Controller(), reactor=clock)
+        for op in ops:
+            step(op)
+        begin({"e": "end"})
+        end()
     finally:
         tlog.removeObserver(observer)
         dns.randomSource = saved
